@@ -517,13 +517,29 @@ func runContractiveGate(p *Program, r *RuleResult) {
 		r.add(name, "definedness-before-contractivity", v, p.instrPos(call), d)
 	}
 	// the preliminary phase returns this function's verdict unchanged
-	pre := p.Func(processPkg, "preliminaryTypesDefinitionsChecks")
+	// the phase of the driver that calls it returns its verdict unchanged (found by role)
+	drv := findTypecheckDriver(p)
 	okPre := false
-	for _, c := range p.callsTo(pre, fn) {
-		call := c.(*ssa.Call)
-		for _, u := range *call.Referrers() {
-			if _, ok := u.(*ssa.Return); ok {
-				okPre = true
+	var pre *ssa.Function
+	for _, ph := range drv.Phases {
+		g := ph.Common().StaticCallee()
+		for _, c := range p.callsTo(g, fn) {
+			pre = g
+			call := c.(*ssa.Call)
+			for _, u := range *call.Referrers() {
+				if _, ok := u.(*ssa.Return); ok {
+					okPre = true
+				}
+			}
+			// or: tested and returned on the non-nil edge
+			gv := p.View(g)
+			for _, b := range gv.Blocks() {
+				if gv.holdsAt(b, call, factNonNil) {
+					ins := gv.Instrs(b)
+					if ret, ok := ins[len(ins)-1].(*ssa.Return); ok && isErrorValue(ret.Results[0], gv, b, map[ssa.Value]bool{}) {
+						okPre = true
+					}
+				}
 			}
 		}
 	}
@@ -531,7 +547,11 @@ func runContractiveGate(p *Program, r *RuleResult) {
 	if !okPre {
 		v = Violated
 	}
-	r.add(fnName(pre), "returns-sanity-verdict", v, p.pos(pre.Pos()), "")
+	prName, prPos := "process typechecking phases", ""
+	if pre != nil {
+		prName, prPos = fnName(pre), p.pos(pre.Pos())
+	}
+	r.add(prName, "returns-sanity-verdict", v, prPos, "")
 	// constructors are guards: only the implementer that follows the environment may be non-constant
 	ev := NewEvaluator(p)
 	var followers []string
